@@ -88,6 +88,7 @@ theorem good_estep {s s' : St} (st : EStep s s') : Good s s' := by
   cases st with
   | incReg => exact good_of_same rfl rfl
   | emit i _ _ hl _ => exact good_push_plain s i hl
+  | branch i _ _ hl _ _ => exact good_push_plain s i hl
   | incEmit i _ _ hl _ => exact (good_of_same (s := s) (s' := s.incReg) rfl rfl).trans (good_push_plain _ i hl)
   | addErr k v l o => exact good_of_same rfl rfl
   | declare n v i _ _ hl _ _ =>
